@@ -15,6 +15,11 @@ FolsA == << Fol(<<"shield", "fuel", "fuel", "plenum">>, <<3, 4, 3, 3>>, 3, TRUE)
             Fol(<<"shield", "control", "plenum">>, <<3, 7, 3>>, 3, FALSE),
             Fol(<<"ductclad", "fueld">>, <<3, 10>>, 3, TRUE) >>
 CoresQuick == { [ref |-> Ref(<<"shield", "fuel", "fuel", "plenum">>, <<3, 4, 3, 3>>, 3, FALSE), fols |-> FolsA] }
+\* small core for the quick replay: a 3-block reference column, the same four kinds of followers
+CoresEmit == { [ref |-> Ref(<<"shield", "fuel", "plenum">>, <<3, 7, 3>>, 3, FALSE),
+                fols |-> << Fol(<<"shield", "afuel", "plenumd">>, <<3, 7, 3>>, 3, TRUE),
+                            Fol(<<"shield", "control", "plenum">>, <<3, 7, 3>>, 3, FALSE),
+                            Fol(<<"ductclad", "fueld">>, <<3, 10>>, 3, TRUE) >>] }
 CoresThorough == CoresQuick \cup
     { [ref |-> Ref(<<"shield", "fuel", "fuel", "plenum">>, <<3, 4, 3, 3>>, 3, TRUE), fols |-> FolsA],
       [ref |-> Ref(<<"fuelb", "bigfuel", "plenums">>, <<4, 4, 4>>, 4, FALSE),
